@@ -77,18 +77,36 @@ class SeqCheck:
         self._runner = seqrun
         ok, log = ctx.check_proofs(self.propfiles)
         proof_broken = not ok
-        corpus = sorted(os.path.join(common.ROOT, 'corpus', 'seq', f) for f in os.listdir(os.path.join(common.ROOT, 'corpus', 'seq'))) \
-            if os.path.isdir(os.path.join(common.ROOT, 'corpus', 'seq')) else []
+        # the corpus runs first: minimised failing histories of earlier seeded changes (on the unchanged tree they agree with the Spec)
+        def corpus_file(sub):
+            d = os.path.join(common.ROOT, 'corpus', sub)
+            if not os.path.isdir(d): return None
+            fs = sorted(f for f in os.listdir(d) if f.endswith('.hist'))
+            if not fs: return None
+            path = os.path.join(ctx.work, f'corpus_{sub}.hist')
+            with open(path, 'w') as out:
+                for f in fs:
+                    # one header line per history (the first `#` line of the file, tagged with the corpus entry's name)
+                    ls = [l for l in open(os.path.join(d, f)).read().split('\n') if l.strip()]
+                    body = [l for l in ls if not l.startswith('#')]
+                    out.write(f'# corpus {f}\n' + '\n'.join(body) + '\n')
+            return path
         divs = []
         cstats = None
-        if corpus:
-            cstats, cd = seqsuite.run_files(ctx, seqrun, 'corpus', corpus); divs += cd
+        cf = corpus_file(getattr(self, 'corpus_dir', 'seq'))
+        if cf:
+            cstats, cd = seqsuite.run_files(ctx, seqrun, 'corpus', [cf]); divs += cd
         stats, d2 = seqsuite.run(ctx, seqrun, self.suites(ctx)); divs += d2
         if getattr(self, 'with_async', False):
             # the async wrappers (incl. AsyncDetached) run the same synchronous core: part of this property's footprint
             bindir, alog = ctx.build_harness(('asyncrun',))
             if bindir is not None:
                 n = 500 if ctx.tier == 'quick' else 10000
+                acf = corpus_file('async')
+                if acf:
+                    acs, acd = seqsuite.run_files(ctx, os.path.join(bindir, 'asyncrun'), 'corpus', [acf], mode='async'); divs += acd
+                    if cstats: cstats.histories += acs.histories
+                    else: cstats = acs
                 astats, d3 = seqsuite.run(ctx, os.path.join(bindir, 'asyncrun'), [('arand', ['arand', ctx.seed, n, 20, 100])], mode='async')
                 divs += d3; stats.steps += astats.steps; stats.histories += astats.histories; stats.distinct |= astats.distinct
                 ctx.notes['async_suite'] = astats.summary()
@@ -812,6 +830,7 @@ for pid in ('C02', 'C03', 'C10'):
 
 # ------------------------------------------------------------------------------------------- C17 (vmem)
 class VmemCheck(SeqCheck):
+    corpus_dir = 'vmem'
     def suites(self, ctx):
         if ctx.tier == 'quick': return [('vrand', ['vrand', ctx.seed, 16, 20, 50])]
         return [('vrand', ['vrand', ctx.seed, 200, 30, 120])]
